@@ -733,6 +733,38 @@ def _params(fn):
 _INLINED = []     # names of helpers whose body was substituted for a call (collected per normalise() run)
 
 
+def _rule_vocabulary():
+    """identifiers the rules themselves name (anchor keys "path.py:func", callee names they look for): a function the rules know by name is never inlined away,
+    even when a refactoring turns it into a one-liner - the rules want to see the call"""
+    import os
+    import re
+    out = set()
+    root = os.path.dirname(os.path.abspath(__file__))
+    for dp, _dn, fns in os.walk(root):
+        for fn in fns:
+            if not fn.endswith(".py") or fn in ("normalise.py", "normalise_samples.py"):
+                continue
+            try:
+                tree = ast.parse(open(os.path.join(dp, fn)).read())
+            except SyntaxError:
+                continue
+            for n in ast.walk(tree):
+                if isinstance(n, ast.Constant) and isinstance(n.value, str) and len(n.value) < 200:
+                    for tok in re.findall(r"[A-Za-z_][A-Za-z0-9_]{3,}", n.value):
+                        out.add(tok)
+    return out
+
+
+_VOCAB = None
+
+
+def _protected(name):
+    global _VOCAB
+    if _VOCAB is None:
+        _VOCAB = _rule_vocabulary()
+    return name in _VOCAB
+
+
 def _inline_wrappers(tree):
     mod_defs, counts = {}, {}
     for st in tree.body:
@@ -763,6 +795,8 @@ def _inline_wrappers(tree):
             return None
         h = mod_defs[call.func.id]
         if h.decorator_list or h.args.vararg or h.args.kwarg or w.args.vararg or w.args.kwarg:
+            return None
+        if _protected(h.name) and h.name != "__method__":
             return None
         if any(isinstance(a, ast.Starred) for a in call.args) or any(k.arg is None for k in call.keywords):
             return None
@@ -841,7 +875,7 @@ def _inline_wrappers(tree):
         if not (isinstance(call.func, ast.Attribute) and isinstance(call.func.value, ast.Name) and call.func.value.id == selfn):
             return None
         h = cls_methods.get((id(cd), call.func.attr))
-        if h is None or h is w or not h.args.args:
+        if h is None or h is w or not h.args.args or _protected(h.name):
             return None
         # rewrite as a call of a plain function with self passed explicitly, then reuse the module-level machinery
         fake = ast.Call(func=ast.Name(id="__method__", ctx=ast.Load()), args=[ast.Name(id=selfn, ctx=ast.Load())] + list(call.args), keywords=list(call.keywords))
@@ -895,7 +929,7 @@ def _inline_expr_helpers(tree):
         if isinstance(st, ast.FunctionDef):
             counts[st.name] = counts.get(st.name, 0) + 1
     for st in tree.body:
-        if not isinstance(st, ast.FunctionDef) or counts[st.name] != 1 or st.decorator_list or st.args.vararg or st.args.kwarg:
+        if not isinstance(st, ast.FunctionDef) or counts[st.name] != 1 or st.decorator_list or st.args.vararg or st.args.kwarg or _protected(st.name):
             continue
         body = list(st.body)
         if body and isinstance(body[0], ast.Expr) and isinstance(body[0].value, ast.Constant) and isinstance(body[0].value.value, str):
@@ -993,7 +1027,7 @@ def _inline_noreturn(tree):
             defs_[st.name] = st
     nr = {}
     for name, h in defs_.items():
-        if counts[name] != 1 or h.decorator_list or h.args.vararg or h.args.kwarg:
+        if counts[name] != 1 or h.decorator_list or h.args.vararg or h.args.kwarg or _protected(name):
             continue
         body = list(h.body)
         if body and isinstance(body[0], ast.Expr) and isinstance(body[0].value, ast.Constant) and isinstance(body[0].value.value, str):
